@@ -57,7 +57,7 @@ class Rec:
     pass
 
 
-def run_instrumented(P, cfg, jac="callable", stop_at=None, use_callback=True, extra=None, fwrap=None, scribble=False, workbuf=False):
+def run_instrumented(P, cfg, jac="callable", stop_at=None, use_callback=True, extra=None, fwrap=None, scribble=False, workbuf=False, on_state=None):
     """Run the implementation on problem P with configuration cfg, logging every user call.
     stop_at: callback returns True at that (1-based) call. extra: further keyword arguments.
     scribble: the user's functions overwrite the array they were handed after using it (a legitimate thing for a
@@ -91,6 +91,8 @@ def run_instrumented(P, cfg, jac="callable", stop_at=None, use_callback=True, ex
 
     def cb(xk, state):
         R.snaps.append((state, copy.deepcopy(state), np.array(xk, copy=True), len(R.flog), len(R.glog)))
+        if on_state is not None:
+            on_state(state)
         ret = stop_at is not None and len(R.snaps) == stop_at
         R.cbret.append(ret)
         return ret
